@@ -219,13 +219,14 @@ class Gen:
     """generates (input-form value, python constructor data) for a TX.
     refchoice(tx_ref, b) -> ("null",) | ("alias", at, tid, handle) | ("new", tid) | ("foreign", tid, (b2, a2), handle)"""
 
-    def __init__(self, ns, rng, refchoice=None, maxdim=3, np_forms=True, allow_uninit=False, mindim=0, capacity_p=0.15, lookup=None, dims_p=0.1):
+    def __init__(self, ns, rng, refchoice=None, maxdim=3, np_forms=True, allow_uninit=False, mindim=0, capacity_p=0.15, lookup=None, dims_p=0.1, xobj=None):
         self.mindim = mindim
         self.ns, self.rng, self.refchoice, self.maxdim, self.np_forms = ns, rng, refchoice, maxdim, np_forms
         self.shorter_strings = True
         self.capacity_p = capacity_p
         self.lookup = lookup
         self.dims_p = dims_p
+        self.xobj = xobj
 
     def shape(self, tx, inarr=False):
         sh = [d if d >= 0 else max(self.mindim, self.rng.choice([0, 1, 1, 2, 2, 3][: self.maxdim + 3])) for d in tx["sh"]]
@@ -233,7 +234,7 @@ class Gen:
             sh = [max(d, 1) if (i < len(sh) - 1 and tx["sh"][i] < 0) else d for i, d in enumerate(sh)]
         return sh
 
-    def value(self, tx, b=None, like=None, _top=True, _inarr=False):
+    def value(self, tx, b=None, like=None, _top=True, _inarr=False, _noxobj=False):
         """like: an existing input-form value whose every dynamic size must be kept (fitting assignment)"""
         rng, k = self.rng, tx["k"]
         if k == "sc":
@@ -260,6 +261,10 @@ class Gen:
                 return strval(b"", n), n
             s = rng.choice(STRINGS)
             return strval(s.encode("utf8"), natural_cap(len(s.encode()))), s
+        if k in ("struct", "arr") and not _top and not _noxobj and like is None and self.xobj is not None and rng.random() < 0.12:
+            got = self.xobj(tx, b)           # "another xobject" as the value of a nested part: the part becomes a copy of it
+            if got is not None:
+                return got
         if k == "struct":
             vs = [self.value(f, b, None if like is None else like[i], False, _inarr) for i, f in enumerate(tx["f"])]
             return [v[0] for v in vs], {self.ns.fname(i): v[1] for i, v in enumerate(vs)}
@@ -314,10 +319,10 @@ class Gen:
         tt = tx["to"] if k == "ref" else tx["of"][tid]
         tlike = None
         if like is not None and not like["null"] and like["tid"] == tid and self.lookup is not None and rng.random() < 0.6:
-            tlike = self.lookup(b, like["at"])          # plain data of exactly the size of the object currently referred to
-            if tlike is not None and has_slack(tt, tlike):
-                tlike = None
-        v, py = self.value(tt, b, tlike, False, _inarr)
+            got = self.lookup(like["at"])               # plain data of exactly the size of the object currently referred to
+            if got is not None and key(got[0]) == key(tt) and not has_slack(tt, got[1]):
+                tlike = got[1]
+        v, py = self.value(tt, b, tlike, False, _inarr, True)       # plain data: an xobject here would be bind-to-existing / bind-to-foreign
         if k == "uref":
             py = (self.ns.cls(tt).__name__, py)
         return {"r": "new", "tid": tid, "v": v}, py
